@@ -557,9 +557,8 @@ func (s *Server) RpcReadyState(e *am.Event) {
 	}
 
 	ctx := s.Mach.NewStateCtx(ssS.RpcReady)
-	if s.ticker == nil {
-		s.ticker = time.NewTicker(*s.PushInterval.Load())
-	}
+	// a fresh ticker per RpcReady, the previous one has been stopped
+	s.ticker = time.NewTicker(*s.PushInterval.Load())
 
 	// avoid dispose
 	t := s.ticker
@@ -569,7 +568,7 @@ func (s *Server) RpcReadyState(e *am.Event) {
 		for {
 			select {
 			case <-ctx.Done():
-				s.ticker.Stop()
+				t.Stop()
 				return
 
 			case <-t.C:
